@@ -177,4 +177,14 @@ def cases(rng, tier):
         out.append(Case('cli_discriminant', line('cli_discriminant', f), model=line('discriminant_x', f, R.MODE['debug']), compare=cmp_cli,
                         oracle=(lambda sf=sf: (lambda ia: None if ia.kind == 'ok' and ia.val == R.disc_formula(sf) else 'CLI discriminant of %s printed %s' % (sf, ia.raw[:100])))(),
                         always_oracle=True, tag='cli'))
+    # the consumer Order::discriminant: many orders with the SAME stored basis (the identity: trivial_order_monic) and different
+    # defining polynomials, answered one after the other by the same process (a value remembered per basis goes stale here)
+    from props import c15 as C15
+    from fractions import Fraction as F_
+    for n in (2, 3, 4):
+        I_ = [[F_(int(i_ == j_)) for j_ in range(n)] for i_ in range(n)]
+        for _ in range(34 if not th else 100):
+            f = [rng.randrange(-9, 10) for _ in range(n)] + [1]
+            if C15.disc_poly([F_(x_) for x_ in f]) == 0: continue
+            out.append(C15.disc_case([Id('triv'), f], f, C15.o_disc(I_, f, power_monic=True), True, 'consumer-order-discriminant'))
     return out
